@@ -133,7 +133,9 @@ const MaxFrame = 1<<24 - 1
 // ErrMalformed is returned by the decoders for anything the protocol does not allow.
 var ErrMalformed = errors.New("malformed MySQL protocol data")
 
-func malformed(f string, a ...any) error { return fmt.Errorf("%w: %s", ErrMalformed, fmt.Sprintf(f, a...)) }
+func malformed(f string, a ...any) error {
+	return fmt.Errorf("%w: %s", ErrMalformed, fmt.Sprintf(f, a...))
+}
 
 // ---------------------------------------------------------------------------------------------
 // framing
@@ -1211,7 +1213,6 @@ func IntFromBytes(b []byte) (int64, error) {
 	}
 	return 0, malformed("integer of %d bytes", len(b))
 }
-
 
 // String shows a value for diagnostics.
 func (v Value) String() string {
